@@ -102,6 +102,46 @@ def msg(p: Program, clsname: str, device="D", name=None, children=None, **extra)
     return Obj(ci, a, label=f"{clsname}:{device}/{name}")
 
 
+def build_mirror(it: Interp, p: Program, kind: str, layout=(("DEV", "V1"), ("DEV", "V2"), ("E", "V1")), names=("A", "B"), callbacks=None):
+    """A client whose mirror was produced by the real client code from definitions: -> (client, {(dev, vec): vector Obj},
+    {(dev, vec, el): element Obj}).  Objects are located through the public attributes devices/vectors/elements."""
+    from .common import public_get
+    cl = make_client(p, callbacks, it=it)
+    pm = p.cls("indi.client.client.BaseClient").find_method("process_message")
+    saved = dict(it.opts)
+    o = client_opts(p)
+    for k in ("inline", "instantiate", "foreign_model"):
+        it.opts[k] = o[k]
+    it.opts["call_may_raise"] = None
+    it.opts["assert_forks"] = False
+    try:
+        for dev, vn in layout:
+            parts = [part(p, f"Def{kind}", nm, None if kind == "BLOB" else "old") for nm in names]
+            it.run_function(Fn(pm, cl), [msg(p, f"Def{kind}Vector", dev, vn, parts)], {})
+    finally:
+        it.opts.clear()
+        it.opts.update(saved)
+    vecs, els = {}, {}
+    devs = public_get(it, cl, "devices")
+    for dev, vn in layout:
+        d = devs.get(Const(dev)) if isinstance(devs, Dct) else None
+        vs = public_get(it, d, "vectors") if isinstance(d, Obj) else None
+        v = vs.get(Const(vn)) if isinstance(vs, Dct) else None
+        if not isinstance(v, Obj):
+            raise Undecided(f"the client did not mirror {dev}.{vn}")
+        v.label = f"cvec:{dev}.{vn}"
+        vecs[(dev, vn)] = v
+        es = public_get(it, v, "elements")
+        for nm in names:
+            e = es.get(Const(nm)) if isinstance(es, Dct) else None
+            if not isinstance(e, Obj):
+                raise Undecided(f"the client did not mirror {dev}.{vn}.{nm}")
+            e.label = f"cel:{dev}.{vn}.{nm}"
+            els[(dev, vn, nm)] = e
+    del it.events[:]
+    return cl, vecs, els
+
+
 def client_opts(p: Program, extra=None):
     def pol(fi, node):
         m = fi.module.name
